@@ -103,7 +103,9 @@ func runC16(c *fw.Ctx) {
 	_, regMon := NewRegistryMonitor(e, func(rule string) bool {
 		return rule == "limit-mismatch" || rule == "purchase-above-max" || rule == "storage-query-counters" || rule == "storage-query-max-purchasable" || rule == "retention-set"
 	})
-	_, entMon := NewEntMonitor(e, func(rule string) bool { return rule == "order-status" || rule == "decision-by-non-signer" || rule == "whitelist-by-non-signer" })
+	_, entMon := NewEntMonitor(e, func(rule string) bool {
+		return rule == "order-status" || rule == "decision-by-non-signer" || rule == "whitelist-by-non-signer"
+	})
 	_, strMon := NewStreamMonitor(e, func(rule string) bool { return rule == "stream-balance-delta" })
 	e.Monitors = append(e.Monitors, regMon, entMon, strMon)
 	validity := &Monitor{Name: "param-validity", AfterBlock: func(e *Env, ob *lab.Obs) {
